@@ -101,31 +101,38 @@ def run(ctx):
                   f"non-zero value is truthy, so a < b and b < a can both hold", expr=f"{c.name}.__lt__ returns",
                   site=f"{c.name}.__lt__: boolean result")
         if c.name in DEFINED:
-            body = lt.node.body
-            guard = body[0] if body else None
-            gtxt = norm(guard.test) if isinstance(guard, ast.If) else ""
-            guarded = gtxt in (f"not isinstance({other}, {c.name})", f"not {other}.isNumerical()")
-            last = body[-1]
-            lt_form = _as_lt(last.value) if isinstance(last, ast.Return) and last.value is not None else None
-            same = lt_form is not None
-            payload = False
-            if same:
-                l, r = lt_form
-                rendered = any(isinstance(n, ast.Call) and norm(n.func) in ("str", "repr", "format")
-                               for n in ast.walk(last.value))
-                payload = not rendered and (
-                    (l == "self.value" and r in (f"{other}.value", f"{other}.asDecimal().value")) or
-                    (l == "self.asDecimal()" and r == other))
-            ctx.check("C07.payload", lt, None, guarded and same and payload,
+            from .common import decision_list
+            dl = decision_list(lt.node)
+            if dl is None:
+                ctx.broken(f"{c.name}.__lt__", "not a decision list (loops / too many paths)")
+            atoms = (f"isinstance({other}, {c.name})", f"{other}.isNumerical()")
+            atom = next((a for a in atoms if any((a, True) in f for f, r in dl)), None)
+            same_kind = [(f, r) for f, r in dl if atom is not None and (atom, True) in f]
+            guarded = atom is not None and all((atom, True) in f or (atom, False) in f for f, r in dl)
+            bad = []
+            mixed_ok = c.name != "ValueInt"
+            for f, r in same_kind:
+                lt_form = _as_lt(r)
+                rendered = any(isinstance(n, ast.Call) and norm(n.func) in ("str", "repr", "format") for n in ast.walk(r))
+                if lt_form is None or rendered:
+                    bad.append(norm(r))
+                    continue
+                l, rr = lt_form
+                if c.name == "ValueInt" and (f"isinstance({other}, ValueDecimal)", True) in f:
+                    if l == "self.asDecimal()" and rr == other:
+                        mixed_ok = True
+                    else:
+                        bad.append(norm(r))
+                    continue
+                if not (l == "self.value" and rr in (f"{other}.value", f"{other}.asDecimal().value")):
+                    bad.append(norm(r))
+            ctx.check("C07.payload", lt, None, guarded and bool(same_kind) and not bad,
                       f"{c.name}.__lt__: the same-kind branch does not compare the payloads with `<` "
-                      f"(guard `{gtxt}`, result `{norm(last.value) if isinstance(last, ast.Return) and last.value else ''}`)"
+                      f"(guard `{atom}`, result `{bad[0] if bad else ''}`)"
                       f": a rendering or other proxy does not order this kind as the language defines",
                       expr=f"{c.name}.__lt__ same-kind region", site=f"{c.name}.__lt__: payload comparison after kind guard")
             if c.name == "ValueInt":
-                mid = [s for s in body[1:-1]]
-                ok = all(isinstance(s, ast.If) and norm(s.test) == f"isinstance({other}, ValueDecimal)"
-                         and norm(s.body[0]) == f"return self.asDecimal() < {other}" for s in mid)
-                ctx.check("C07.payload", lt, None, ok, "ValueInt.__lt__: mixed int/decimal case changed",
+                ctx.check("C07.payload", lt, None, mixed_ok, "ValueInt.__lt__: mixed int/decimal case changed",
                           expr="ValueInt mixed", site="ValueInt.__lt__: int vs decimal via asDecimal()")
 
     # ---------------------------------------------------------------- compare
